@@ -196,6 +196,9 @@ func H06d_retained() {
 	var have [2]bool
 	var pay [2][]byte
 	var qos [2]byte
+	// 1..K operations (a fixed count hides what only shows when nothing follows: round-7 change C06-13 needs
+	// "store on a/b, clear a, look up" with no third operation that moves its counter away from zero again)
+	K = 1 + vrtChoice("nops", K)
 	for i := 0; i < K; i++ {
 		// symmetry: the first operation stores a non-empty message on T0
 		t := 0
@@ -393,4 +396,79 @@ func H06c_remove_all() {
 		}
 	}
 	vrtReach("C06.remove_all")
+}
+
+// H06e_deep: three-level names (the histories above stop at two levels, the byte-level harness at three
+// or four bytes, i.e. "a/+" or "+/#"): one or two retained messages on topics of 1..3 levels and a
+// filter of 1..3 levels ("x/+/#" with a message retained exactly on "x" is the round-7 change C06-14),
+// and the same pair as one subscription and one publish. Oracle: section 4.7 matching.
+func H06e_deep_retained() {
+	T := [2][]byte{vrtLevelName("T0", 3, false), vrtLevelName("T1", 3, false)}
+	mt := NewMemProvider()
+	n := 1 + vrtChoice("ntopics", 2)
+	if n == 2 {
+		vrtAssume(!vrtBytesEq(T[0], T[1]))
+	}
+	for i := 0; i < n; i++ {
+		vrtAssert("C06.retained_store_ok", mt.Retain(vrtPub(T[i], []byte{byte('p' + i)}, 1)) == nil)
+	}
+	F := vrtLevelName("F", 3, true)
+	vrtAssume(specFilterValid(F))
+	var msgs []*message.PublishMessage
+	vrtAssert("C06.retained_lookup_ok", mt.Retained(F, &msgs) == nil)
+	want := 0
+	for i := 0; i < n; i++ {
+		m := vrtConcretize(vrtIteInt(specMatch(F, T[i]), 1, 0))
+		found := 0
+		for _, r := range msgs {
+			if vrtBytesEq(r.Topic(), T[i]) {
+				found++
+			}
+		}
+		vrtAssert("C06.deep_retained_exactly_the_matching", found == m)
+		want += m
+	}
+	vrtAssert("C06.deep_retained_count", len(msgs) == want)
+	if want > 0 {
+		vrtReach("C06.deep_retained_matched")
+	}
+}
+
+func H06e_deep_subscription() {
+	F := vrtLevelName("F", 3, true)
+	vrtAssume(specFilterValid(F))
+	T := vrtLevelName("T", 3, false)
+	mt := NewMemProvider()
+	type sub struct{ x int }
+	s1, s2 := &sub{1}, &sub{2}
+	q, err := mt.Subscribe(F, 1, s1)
+	vrtAssert("C06.deep_subscribe_ok", vrtAnd(err == nil, q == 1))
+	// a second subscriber on a fixed sibling filter must not disturb the first
+	_, err = mt.Subscribe([]byte("zz/+"), 2, s2)
+	vrtAssert("C06.deep_subscribe_ok", err == nil)
+	var subs []interface{}
+	var qoss []byte
+	vrtAssert("C06.deep_lookup_ok", mt.Subscribers(T, 2, &subs, &qoss) == nil)
+	m := vrtConcretize(vrtIteInt(specMatch(F, T), 1, 0))
+	m2 := vrtConcretize(vrtIteInt(specMatch([]byte("zz/+"), T), 1, 0))
+	c1, c2 := 0, 0
+	for i, x := range subs {
+		if x == interface{}(s1) {
+			c1++
+			vrtAssert("C06.deep_qos", qoss[i] == 1)
+		}
+		if x == interface{}(s2) {
+			c2++
+		}
+	}
+	vrtAssert("C06.deep_exactly_the_matching", vrtAnd(c1 == m, c2 == m2))
+	vrtAssert("C06.deep_count", len(subs) == m+m2)
+	if m > 0 {
+		vrtReach("C06.deep_matched")
+	}
+	// unsubscribing removes it again
+	vrtAssert("C06.deep_unsubscribe_ok", mt.Unsubscribe(F, s1) == nil)
+	subs, qoss = subs[:0], qoss[:0]
+	vrtAssert("C06.deep_lookup_ok", mt.Subscribers(T, 2, &subs, &qoss) == nil)
+	vrtAssert("C06.deep_gone_after_unsubscribe", len(subs) == m2)
 }
